@@ -77,7 +77,8 @@ class Check:
                 kf.append(v)
             else:
                 new.append(v)
-        rep_dir = os.path.join(VERIF, "evidence", "reports")
+        evdir = os.environ.get("VERIF_EVIDENCE_DIR") or os.path.join(VERIF, "evidence")
+        rep_dir = os.path.join(evdir, "reports")
         os.makedirs(rep_dir, exist_ok=True)
         for v in kf:
             print("KNOWN-FINDING: property=%s %s -- %s" % (self.pid, v["key"], known[v["key"]]))
@@ -122,7 +123,7 @@ class Check:
             "wall_s": round(time.time() - self.t0, 2),
             "violations": len(new),
         }
-        out = os.path.join(VERIF, "evidence", "%s.json" % self.pid)
+        out = os.path.join(evdir, "%s.json" % self.pid)
         tmp = out + ".tmp"
         with open(tmp, "w") as f:
             json.dump(ev, f, indent=1)
